@@ -104,6 +104,11 @@ type Config struct {
 	MaxExec  int64         // cap (0 = none); hitting it is reported, never silent
 	Deadline time.Duration // cap (0 = none)
 	Serial   bool          // run bodies one at a time (bodies that need the whole process)
+	// ShardDepth (process-level sharding, VERIF_SHARD=i/n): work items with exactly ShardDepth deviations are dealt out
+	// over the shards by a hash of their choices; items with fewer deviations are executed by every shard (they are
+	// needed to generate the tree below them) but counted only by the shard that owns them. 0 or 1 = deal the children
+	// of the root execution (round-robin in generation order).
+	ShardDepth int
 	// StuckAfter/OnStuck: livelock detection. A body that has not returned after StuckAfter of real time is handed to
 	// OnStuck together with the CPU time the process burnt meanwhile (a busy loop burns CPU, a starved machine or a
 	// harness deadlock does not). The stuck goroutine cannot be ended, so OnStuck must finish the run and exit the process.
@@ -198,9 +203,40 @@ type Stats struct {
 	Executions int64
 	Points     int64
 	MaxDepth   int64
+	Unowned    int64  // executions repeated in this shard only to generate the tree below them (counted by their owner shard)
 	Capped     string // non-empty when a cap ended the run early
 	Nondet     []string
 	NondetPre  [][]Point // the prefixes whose replay diverged (for debugging the harness)
+}
+
+func deviations(pts []Point) int {
+	n := 0
+	for _, p := range pts {
+		if p.Choice != 0 {
+			n++
+		}
+	}
+	return n
+}
+
+// ownerOf maps a work item to the shard that owns it (FNV-1a over its choices; the root belongs to shard 0).
+func ownerOf(pts []Point, n int) int {
+	if len(pts) == 0 {
+		return 0
+	}
+	h := uint64(14695981039346656037)
+	mix := func(b byte) { h ^= uint64(b); h *= 1099511628211 }
+	for _, p := range pts {
+		for i := 0; i < len(p.Class); i++ {
+			mix(p.Class[i])
+		}
+		mix(byte(p.N))
+		mix(byte(p.N >> 8))
+		mix(byte(p.Choice))
+		mix(byte(p.Choice >> 8))
+		mix(0xff)
+	}
+	return int(h % uint64(n))
 }
 
 // ReplayOne runs the body once on a fixed choice list.
@@ -330,7 +366,19 @@ func Explore(cfg Config, body func(*Ctx)) Stats {
 					}
 				}
 			}
-			if len(prefix) == 0 && shardN > 1 {
+			owned := true
+			if shardN > 1 && cfg.ShardDepth > 1 {
+				if deviations(prefix) < cfg.ShardDepth {
+					owned = ownerOf(prefix, shardN) == shardI
+				}
+				kept := children[:0]
+				for _, ch := range children {
+					if deviations(ch) != cfg.ShardDepth || ownerOf(ch, shardN) == shardI {
+						kept = append(kept, ch)
+					}
+				}
+				children = kept
+			} else if len(prefix) == 0 && shardN > 1 {
 				// process-level sharding: the subtrees below the root execution are dealt out round-robin in their
 				// (deterministic) generation order; every shard runs the root execution itself
 				kept := children[:0]
@@ -342,8 +390,12 @@ func Explore(cfg Config, body func(*Ctx)) Stats {
 				children = kept
 			}
 			mu.Lock()
-			st.Executions++
-			st.Points += int64(len(c.pts))
+			if owned {
+				st.Executions++
+				st.Points += int64(len(c.pts))
+			} else {
+				st.Unowned++
+			}
 			if int64(len(c.pts)) > st.MaxDepth {
 				st.MaxDepth = int64(len(c.pts))
 			}
